@@ -255,7 +255,7 @@ pub fn main(args: Args) -> i32 {
         };
     }
     let mut subjects: Vec<Subject> = vec![];
-    let g1 = gen::Gen::new(gen::Opts { depth: 1, max_programs: u64::MAX, multi_template: false, loop_controls: true });
+    let g1 = gen::Gen::new(gen::Opts { depth: 1, max_programs: u64::MAX, multi_template: false, loop_controls: true, extra_leaves: false });
     for n in 0..g1.size() {
         let src = g1.program(n).source();
         // integer / small-string / safe-string fast paths and escaping are part of the write sites
@@ -281,7 +281,7 @@ pub fn main(args: Args) -> i32 {
             subjects.push(Subject { name: format!("zoo#{}:{}", zi, label), templates: vec![(format!("main{}", ext), format!("a{{{{ {} }}}}b{{% for i in [-1, 2] %}}{{{{ i }}}}{{% endfor %}}", e))], main: format!("main{}", ext), block: None });
         }
     }
-    let g2 = gen::Gen::new(gen::Opts { depth: 2, max_programs: u64::MAX, multi_template: false, loop_controls: true });
+    let g2 = gen::Gen::new(gen::Opts { depth: 2, max_programs: u64::MAX, multi_template: false, loop_controls: true, extra_leaves: false });
     let stride2 = args.tier.pick(61u64, 1u64);
     let mut n = 0;
     while n < g2.size() {
